@@ -53,7 +53,10 @@ def collect(ctx):
         p = drv_kdq.stream_params(rng)
         p["bootstrap_samples"] = 20
         n = rng.randint(8, 12) * p["window_size"]
-        ts.append(L.from_kdq(drv_kdq.run_stream(p, drv_kdq.bursty_stream(rng, n, 2, p["window_size"]), sorted(rng.sample(range(5, n), 1)), rng.randrange(10 ** 6))))
+        rs = set(rng.sample(range(5, n), 1))
+        if p["window_size"] > 2:
+            rs.add(rng.randint(1, p["window_size"] - 1))         # a reset while the first reference window is still being collected
+        ts.append(L.from_kdq(drv_kdq.run_stream(p, drv_kdq.bursty_stream(rng, n, 2, p["window_size"]), sorted(rs), rng.randrange(10 ** 6))))
         pb = drv_kdq.batch_params(rng)
         pb["bootstrap_samples"] = 20
         ts.append(L.from_kdq(drv_kdq.run_batch(pb, drv_kdq.batch_sequence(rng, 10, 2), [5], first_is_reference=rng.random() < 0.7, seed=rng.randrange(10 ** 6))))
